@@ -1,6 +1,7 @@
 import FractopoModel.Basic.Wire
 import FractopoModel.Generated.ValidateStep
 import FractopoModel.Generated.ValidationPass
+import FractopoModel.Generated.RunValidation
 /-!
 # Runs the REGENERATED row / validator loops of `run_validation` (`Gen.validation_pass`) with the regenerated `_validate`
 inside, twice (first pass geometries feed the second pass, as `run_validation` does), on scripted validators (translator
@@ -32,9 +33,12 @@ def vpass (a : Args) : Option String := do
   let isLine : Nat → Bool := fun g => g == 0 || g == 9
   let validate_ : SV → Nat → List String → Nat → Nat × List String × Bool := fun v g errs _ =>
     Gen.validate_step v.lsOnly (isLs g) (g == 1) false (!(v.fails.contains g)) v.fix v.err major g errs allowFix
-  let (_, g1) := Gen.validation_pass validate_ isLine geoms vals
-  let (e2, g2) := Gen.validation_pass validate_ isLine g1 vals
-  some s!"geoms={showNats g2} errs={"|".intercalate (e2.map fun es => ";".intercalate (es.map enc))}"
+  -- the regenerated frame-level plumbing of run_validation (both passes through its own recursion, unfolded once) around the regenerated loops
+  let passG : List SV → List Nat → List (List String) × List Nat := fun vs fr => Gen.validation_pass validate_ isLine fr vs
+  let frameFn := fun (recur : List Nat → String × List (Nat × List String)) (fr : List Nat) (first : Bool) =>
+    Gen.run_validation_frame "VALIDATION_ERRORS" "VALIDATION_" (fun _ => false) ([] : List SV) [] (fun _ => false) (fun _ => false) "EMPTY TARGET AREA" passG recur fr first (some vals) true
+  let (tag, rows) := frameFn (fun fr => frameFn (fun _ => ("untouched", [])) fr false) geoms true
+  some s!"tag={tag} geoms={showNats (rows.map (·.1))} errs={"|".intercalate (rows.map fun r => ";".intercalate (r.2.map enc))}"
 
 def dispatch (line : String) : String :=
   let toks := (line.trimAscii.toString.splitOn " ").filter (· ≠ "")
